@@ -487,7 +487,9 @@ def diff(a, b, path='', tol_default=5e-7):
         if tol_default == 'sig':
             if abs(a - b) <= 5.1e-6 * max(abs(a), abs(b)) + 1e-12:
                 return None
-        elif abs(a - b) <= tol_default * 1.0000001:
+        elif tol_default and abs(a - b) <= tol_default * 1.0000001 + 4 * math.ulp(max(abs(a), abs(b))):
+            # the bound of the statement is a decimal one; a binary float exactly half-way between two 6-place decimals
+            # can sit one rounding error beyond it (found by the thorough tier: -11577.7287885 -> "-11577.728789")
             return None
         return path, a, b
     if a != b:
